@@ -245,7 +245,7 @@ Proof.
     assert (Hin : In c (consts_of (oks (map parse_leaf (expected_leaves T f))))) by (rewrite <- Hc; now left).
     apply in_consts_of, in_oks, leaf_of_ok in Hin as (x & Hx & Hp).
     destruct (parse_leaf_kind uc tstr T x _ Hp) as [Hkind _].
-    destruct x as [a i g fs|a i g vs|a i g t|a i t e|u|inner]; cbn [leaf_kind_ok] in Hkind; try contradiction.
+    destruct x as [a i g fs|a i g vs|a i g t|a i t e|u|inner]; cbn [c03_leaf_kind_ok] in Hkind; try contradiction.
     cbn [FrontItems.parse_leaf] in Hp. destruct (const_needs_int_literal uc tstr a i t e _ Hp) as [z Hz].
     pose proof (proj1 (existsb_false_all _ _) Ee _ Hx) as Hcand. cbn [c03_const_candidate] in Hcand. rewrite Hz in Hcand. discriminate.
   - cbn [known_C03_file known_C03_src_file] in *.
@@ -254,7 +254,7 @@ Proof.
     { apply existsb_false_all. intros e Hin. rewrite He in Hin.
       apply in_enums_of, in_oks, leaf_of_ok in Hin as (x & Hx & Hp).
       destruct (parse_leaf_kind uc tstr T x _ Hp) as [Hkind _].
-      destruct x as [a i g fs|a i g vs|a i g t|a i t e'|u|inner]; cbn [leaf_kind_ok] in Hkind; try contradiction.
+      destruct x as [a i g fs|a i g vs|a i g t|a i t e'|u|inner]; cbn [c03_leaf_kind_ok] in Hkind; try contradiction.
       - cbn [FrontItems.parse_leaf] in Hp.
         pose proof (proj1 (forallb_forall _ _) Hd _ Hx) as Hdx.
         destruct (enum_src_facts a i g vs e Hdx Hp) as (Hs & Hw & Hu).
